@@ -8,24 +8,239 @@ FAMNUM = 6
 ORACLES = {"prop_ok": 0}
 GEN_MODULES = [("GenHll",
                 ["hll/mod.rs", "hll/serialization.rs", "hll/container.rs", "hll/list.rs", "hll/hash_set.rs",
-                 "hll/aux_map.rs", "hll/array4.rs", "hll/array6.rs", "hll/coupon_mapping.rs", "hll/estimator.rs"],
+                 "hll/aux_map.rs", "hll/array4.rs", "hll/array6.rs", "hll/coupon_mapping.rs", "hll/estimator.rs", "hll/sketch.rs"],
                 ["KEY_BITS_26", "KEY_MASK_26", "RESIZE_NUMERATOR", "RESIZE_DENOMINATOR", "COUPON_RSE_FACTOR",
                  "COUPON_EMPTY", "ENTRY_EMPTY", "LG_INIT_LIST_SIZE", "LG_INIT_SET_SIZE", "AUX_TOKEN", "VAL_MASK_6",
                  "X_ARR", "Y_ARR", "HIP_LB", "HIP_UB", "LIT_lg_aux_arr_ints", "LIT_update_kxq", "LIT_coupon",
-                 "LIT_num_bytes_for_k", "FLIT_get_rel_err",
+                 "LIT_update_with_coupon", "LIT_num_bytes_for_k", "FLIT_get_rel_err",
                  "SERIAL_VERSION", "LIST_PREINTS", "HASH_SET_PREINTS", "HLL_PREINTS", "EMPTY_FLAG_MASK",
                  "COMPACT_FLAG_MASK", "OUT_OF_ORDER_FLAG_MASK", "CUR_MODE_LIST", "CUR_MODE_SET", "CUR_MODE_HLL",
                  "TGT_HLL4", "TGT_HLL6", "TGT_HLL8"],
                 {"hll/aux_map.rs": ["lg_aux_arr_ints"], "hll/estimator.rs": ["update_kxq"], "hll/mod.rs": ["coupon"],
-                 "hll/sketch.rs": [], "hll/array6.rs": ["num_bytes_for_k"]},
+                 "hll/sketch.rs": ["update_with_coupon"], "hll/array6.rs": ["num_bytes_for_k"]},
                 {"hll/coupon_mapping.rs": ["X_ARR", "Y_ARR"], "hll/estimator.rs": ["HIP_LB", "HIP_UB"]},
                 {"hll/estimator.rs": ["get_rel_err"]})]
 OPNAMES = {1: "update", 2: "coupon", 3: "dump", 4: "estimate", 5: "bounds", 6: "raw", 7: "serialize"}
 
 
+M26 = (1 << 26) - 1
+
+
+def coupon_of_item(x):
+    """the crate's coupon(): MurmurHash3 x64 128 (seed 9001) of the 8 LE bytes of the i64"""
+    lo, hi = pyref.murmur3_x64_128(pyref.le8(x), 9001)
+    lz = 64 - hi.bit_length()
+    return ((min(lz, 62) + 1) << 26) | (lo & M26)
+
+
+def cp(slot, value):
+    return (value << 26) | (slot & M26)
+
+
+def rand_value(rng, hi=63):
+    """geometric like a real hash, with a fat tail up to 63"""
+    r = rng.random()
+    if r < 0.75:
+        v = 1
+        while v < hi and rng.random() < 0.5:
+            v += 1
+        return v
+    if r < 0.9:
+        return rng.randint(1, min(hi, 20))
+    return rng.randint(1, hi)
+
+
+class Builder:
+    def __init__(self, lgk):
+        self.lgk = lgk
+        self.ops = []
+        self.n = [0, 0]
+
+    def upd(self, g, item):
+        self.ops.append((1, [g, item, coupon_of_item(item)])); self.n[g] += 1
+
+    def cpn(self, g, c):
+        self.ops.append((2, [g, c])); self.n[g] += 1
+
+    def dump(self, g, types=(0, 1, 2)):
+        for t in types:
+            self.ops.append((3, [g, t]))
+
+    def query(self, g):
+        for t in (0, 1, 2):
+            self.ops.append((4, [g, t]))
+        for t in (0, 1, 2):
+            self.ops.append((5, [g, t]))
+
+    def raw(self, g, types=(0, 1, 2)):
+        for t in types:
+            self.ops.append((6, [g, t]))
+
+    def check(self, g, rng, full=True):
+        """dump (all types when affordable) + estimates/bounds of all three types"""
+        if full or self.lgk <= 10:
+            self.dump(g)
+        else:
+            self.dump(g, (rng.randrange(3),))
+        self.query(g)
+        if rng.random() < 0.5:
+            self.raw(g, (0,) if self.lgk > 10 else (0, 1, 2))
+
+
+def thresholds(lgk):
+    """numbers of distinct coupons at which the mode or the set size changes"""
+    th = [7, 8, 9]
+    if lgk >= 8:
+        s = 5
+        while s <= lgk - 3:
+            th += [3 * (1 << s) // 4, 3 * (1 << s) // 4 + 1, 3 * (1 << s) // 4 + 2]
+            s += 1
+    return th
+
+
+def stream_hashed(rng, b, g, lgk, tier):
+    k = 1 << lgk
+    th = thresholds(lgk)
+    target = rng.choice(th + [rng.randint(1, 12), min(4 * k, 6000), rng.randint(1, max(2, min(3 * k, 5000)))])
+    if tier == "thorough" and rng.random() < 0.3:
+        target = rng.randint(1, min(8 * k, 60000))
+    base = rng.choice([0, 1, -5, rng.getrandbits(62), -rng.getrandbits(62)])
+    marks = set(x for x in th if x <= target)
+    for i in range(target):
+        b.upd(g, base + i)
+        if rng.random() < 0.05:
+            b.upd(g, base + rng.randint(0, i))      # duplicate
+        if (i + 1) in marks or (i + 2) in marks:
+            b.check(g, rng, full=(lgk <= 10))
+    b.check(g, rng)
+
+
+def stream_random_coupons(rng, b, g, lgk, tier):
+    k = 1 << lgk
+    n = rng.choice([rng.randint(1, 30), rng.randint(1, 3 * k), min(5 * k, 5000)])
+    wide = rng.random() < 0.5          # slots using all 26 bits (the array masks them) or only lg_k bits
+    hi = rng.choice([63, 63, 20, 14, 16])
+    every = max(1, n // rng.choice([1, 2, 4]))
+    for i in range(n):
+        slot = rng.getrandbits(26) if wide else rng.randrange(k)
+        b.cpn(g, cp(slot, rand_value(rng, hi)))
+        if rng.random() < 0.1 and b.n[g] > 1:
+            b.ops.append(b.ops[rng.randrange(len(b.ops))]) if b.ops[-1][0] == 2 and False else None
+        if (i + 1) % every == 0 and lgk <= 11:
+            b.check(g, rng, full=(lgk <= 8))
+    b.check(g, rng)
+
+
+def stream_set_collisions(rng, b, g, lgk, tier):
+    """coupons whose probe start collides at every set size: equal low 18 bits of the slot,
+    different high bits (stride) or equal slot with different values (identical probe path)"""
+    low = rng.getrandbits(18)
+    n = rng.choice([10, 30, 100, 3 * (1 << max(2, lgk - 3)) // 4 + 3])
+    seen = []
+    for i in range(n):
+        r = rng.random()
+        if r < 0.45:
+            c = cp((rng.getrandbits(8) << 18) | low, rand_value(rng))
+        elif r < 0.8:
+            c = cp(low | (rng.getrandbits(3) << 23), rng.randint(1, 63))
+        elif r < 0.9 and seen:
+            c = rng.choice(seen)
+        else:
+            c = cp(rng.getrandbits(26), rand_value(rng))
+        seen.append(c)
+        b.cpn(g, c)
+        if rng.random() < 0.08:
+            b.check(g, rng, full=(lgk <= 10))
+            b.raw(g, (0,))
+    b.raw(g, (rng.randrange(3),))
+    b.check(g, rng)
+
+
+def stream_cur_min(rng, b, g, lgk, tier):
+    """raise every register round after round so that Hll4's cur_min shifts 1, 2, 3, ... while
+    exceptions (value - cur_min >= 15) are live in the aux map; some rounds jump several levels"""
+    k = 1 << lgk
+    levels = rng.choice([2, 3, 5, 17, 40]) if lgk <= 7 else rng.choice([1, 2, 3])
+    exc = {}
+    for s in rng.sample(range(k), min(k, rng.choice([1, 2, 3, k // 4 + 1, k // 2]))):
+        exc[s] = rng.randint(15, 63)
+    order = list(range(k))
+    level = 0
+    while level < levels:
+        level += rng.choice([1, 1, 1, 2, 3])
+        level = min(level, 63)
+        rng.shuffle(order)
+        for j, s in enumerate(order):
+            v = level
+            if s in exc and rng.random() < 0.7:
+                v = min(63, max(level, exc[s] + rng.randint(-2, 3)))
+                exc[s] = v
+            b.cpn(g, cp(s | (rng.getrandbits(26 - lgk) << lgk), v))
+            if j >= k - 2 and lgk <= 10:
+                b.dump(g, (0,))
+        b.check(g, rng, full=(lgk <= 10))
+        if rng.random() < 0.5:
+            b.raw(g, (0,))
+    # a last few very large values
+    for _ in range(rng.randint(0, 6)):
+        b.cpn(g, cp(rng.randrange(k), rng.randint(40, 63)))
+    b.check(g, rng)
+
+
+def stream_aux_collisions(rng, b, g, lgk, tier):
+    """many exceptions whose slots collide in the aux table (start = slot & (size-1), stride =
+    (slot >> lg_size) | 1), enough of them to make the aux map grow"""
+    k = 1 << lgk
+    # get into array mode quickly with low values
+    for s in rng.sample(range(k), min(k, max(9, (3 * k) // 32 + 2))):
+        b.cpn(g, cp(s, rng.randint(1, 3)))
+    low = rng.randrange(4)
+    slots = [s for s in range(k) if (s & 3) == low]
+    rng.shuffle(slots)
+    for s in slots[:rng.choice([3, 4, 8, 20, 60])]:
+        b.cpn(g, cp(s, rng.randint(15, 63)))
+        if rng.random() < 0.3:
+            b.cpn(g, cp(s, rng.randint(15, 63)))       # replace in the aux map (or no-op)
+        if rng.random() < 0.15:
+            b.dump(g, (0,)); b.raw(g, (0,))
+    b.check(g, rng, full=(lgk <= 10))
+    b.raw(g, (0,))
+
+
+STREAMS = [stream_hashed, stream_random_coupons, stream_set_collisions, stream_cur_min, stream_aux_collisions]
+
+
+def gen_case(rng, cid, tier, focus=None):
+    if tier == "quick":
+        lgk = rng.choice([4, 4, 5, 6, 7, 8, 8, 9, 10, 11, 12, 13, 14])
+    else:
+        lgk = rng.choice(list(range(4, 17)) + [4, 5, 7, 8, 9, 17, 18, 19, 20, 21])
+    kind = rng.choice(STREAMS + [stream_hashed, stream_cur_min])
+    if lgk > 16:
+        kind = rng.choice([stream_hashed, stream_set_collisions, stream_random_coupons])
+    if kind is stream_cur_min and lgk > (9 if tier == "quick" else 12):
+        lgk = rng.choice([4, 5, 6, 7, 8, 9])
+    b = Builder(lgk)
+    kind(rng, b, 0, lgk, tier)
+    # group 1: a permutation (with extra duplicates) of group 0's stream; same set => same state
+    feed = [(c, a) for (c, a) in b.ops if c in (1, 2)]
+    if len(feed) <= 4000 or tier == "thorough":
+        rng.shuffle(feed)
+        for c, a in feed:
+            b.ops.append((c, [1] + a[1:])); b.n[1] += 1
+            if rng.random() < 0.03:
+                b.ops.append((c, [1] + a[1:])); b.n[1] += 1
+        b.dump(1, (0, 1, 2) if lgk <= 11 else (rng.randrange(3),))
+        b.query(1)
+    return Case(cid, [lgk], b.ops, tag="hll-%s-lgk%d" % (kind.__name__[7:], lgk))
+
+
 def gen(rng, tier, n=None, focus=None):
-    return []
+    n = n or (90 if tier == "quick" else 900)
+    return [gen_case(rng, i, tier, focus) for i in range(n)]
 
 
 def nontrivial(case, obs):
-    return True
+    """at least two distinct coupons fed and at least one state dump"""
+    cs = {a[-1] for (c, a) in case.ops if c in (1, 2)}
+    return len(cs) >= 2 and any(c == 3 for (c, a) in case.ops)
